@@ -23,8 +23,15 @@ class BracketDomain(Domain):
             return v.b
         return super().truth(v, state)
 
+    def attr_load(self, objval, node, state):
+        if is_self_attr(node) and node.attr in ("get", "release", "destroy"):
+            return Opaque("bound:self." + node.attr)  # a bound method of the pool, possibly kept in a variable
+        return super().attr_load(objval, node, state)
+
     def call(self, node, fval, args, kwargs, state):
         name = call_name(node)
+        if isinstance(fval, Opaque) and fval.tag.startswith("bound:"):
+            name = fval.tag[6:]
         if name == "self.get":
             s2 = state.set("got", 1)
             return [("ok", POOLED, s2)] + self.call_raises(node, state)
@@ -188,6 +195,11 @@ class LockDomain(Domain):
 
 
     def compare(self, node, op, l, r, state):
+        if isinstance(op, (ast.Is, ast.IsNot)):
+            sent = lambda v: isinstance(v, Opaque) and v.tag.startswith("sentinel:")
+            if (sent(l) or sent(r)) and all(sent(v) or isinstance(v, Obj) or v == NONE for v in (l, r)):
+                same = l == r
+                return Const(same if isinstance(op, ast.Is) else not same)
         if isinstance(l, Lin) and isinstance(r, Lin) and isinstance(op, (ast.Lt, ast.LtE, ast.Gt, ast.GtE)):
             return TOP
         return super().compare(node, op, l, r, state)
@@ -230,6 +242,8 @@ class LockDomain(Domain):
         if isinstance(itval, Opaque) and itval.tag.startswith("locallist:"):
             return [(Obj("from:" + itval.tag[10:]), state)]
         if isinstance(itval, Snapshot):
+            if not itval.fields:
+                return []  # an empty local list
             st = state
             if isinstance(node.target, ast.Name):
                 st = st.set(("snap", node.target.id), itval.fields)
@@ -237,7 +251,14 @@ class LockDomain(Domain):
         return super().for_next(node, itval, state)
 
     def name_load(self, name, state, node=None):
-        return state.get(name, TOP)
+        if state.has(name):
+            return state.get(name)
+        mod = self.prog.module(POOL) if self.prog is not None else None
+        if mod is not None and name in mod.assigns:
+            v = mod.assigns[name]
+            if isinstance(v, ast.Call) and call_name(v) == "object" and not v.args:
+                return Opaque("sentinel:" + name)  # a module-level `object()` marker ("no object found")
+        return TOP
 
     def call(self, node, fval, args, kwargs, state):
         name = call_name(node)
@@ -272,6 +293,8 @@ class LockDomain(Domain):
                 if isinstance(node.func, ast.Attribute) and node.func.attr == "extend" and isinstance(node.func.value, ast.Name):
                     lst = node.func.value.id
                     st = st.set(("ext", lst), tuple(sorted(set(st.get(("ext", lst), ())) | {(a.tag[6:], st.get("epoch"))})))
+                    if isinstance(st.get(lst, None), Snapshot):
+                        st = st.set(lst, Snapshot(tuple(sorted(set(st.get(lst).fields) | {(a.tag[6:], st.get("epoch") if st.get("lock") else -1)}))))
         if name in ("list", "tuple") and args and isinstance(args[0], Opaque) and args[0].tag.startswith("field:"):
             return [("ok", Snapshot(((args[0].tag[6:], st.get("epoch") if st.get("lock") else -1),)), st)]
         if name.startswith("self._") and name.count(".") == 1 and name[5:] not in ("_obj_creator", "_after_remove", "_idle_clock") and self.prog is not None:
@@ -339,6 +362,8 @@ class LockDomain(Domain):
         return TOP, False
 
     def make_list(self, items, node, state):
+        if not items and not node.elts:
+            return Snapshot(())  # an empty local list (may receive copies of the guarded deques through extend)
         fields = []
         for it in items:
             if isinstance(it, Opaque) and it.tag.startswith("field:"):
